@@ -159,21 +159,28 @@ def sysChildren (sysModules : List Str) (root : Str) : List Str :=
     sysModules.filterMap (fun m => if droot.isPrefixOf m then some (firstPart (m.drop droot.length)) else none)
   else sysModules.map firstPart
 
-/-- the body of `for name in dlist` (suffixes are non-empty: `name[:-len(s)]`) -/
+/-- the body of `for name in dlist`, suffix by suffix.  NOTE the `continue` after `mname == '__init__'`
+    continues the INNER loop `for s in SUFFIXES` (a later, shorter suffix may still match:
+    `__init__.abi3.so` is listed as `__init__.abi3`), and the `else` branch of that loop runs whenever no
+    `break` happened.  (Suffixes are non-empty: `name[:-len(s)]`.) -/
 def childOf (sfx : List Str) (fs : Fs) (pdir : Path) (name : Str) : Option Str :=
-  match sfx.find? (fun s => s.isSuffixOf name) with
-  | some s =>
-    let m := name.take (name.length - s.length)
-    if m = INIT then none else some m
-  | none => if fs.exists (pdir ++ [name, INIT_PY]) then some name else none
+  match sfx with
+  | [] => if fs.exists (pdir ++ [name, INIT_PY]) then some name else none
+  | s :: rest =>
+    if s.isSuffixOf name then
+      let m := name.take (name.length - s.length)
+      if m = INIT then childOf rest fs pdir name else some m
+    else childOf rest fs pdir name
 
 def dirChildren (sfx : List Str) (fs : Fs) (pdir : Path) : List Str :=
   match fs.listdir pdir with
   | none => []
   | some dlist => dlist.filterMap (childOf sfx fs pdir)
 
-/-- `os.path.join(p, *root.split('.'))`; for root = '' this is `p + '/'`, the same directory -/
-def pkgDirOf (p : Path) (root : Str) : Path := if root = [] then p else p ++ splitOn DOT root
+/-- `os.path.join(p, *root.split('.'))` used as a DIRECTORY (listdir, and as the first argument of a further
+    join): empty components vanish (`''` gives `p + '/'`, `'a..b'` gives `p/a/b`, `'a.'` gives `p/a/`), and a
+    trailing '/' names the same directory -/
+def pkgDirOf (p : Path) (root : Str) : Path := p ++ (splitOn DOT root).filter (· ≠ [])
 
 /-- the result is a set: order and multiplicity are not observable -/
 def listPackages (roots : List Path) (sfx : List Str) (fs : Fs) (sysModules : List Str) (root : Str) : List Str :=
